@@ -866,3 +866,19 @@ def _n_spec_varargs(ne, f):
 def _n_spec_varkw(ne, f):
     from mako import compat
     return compat.inspect_getargspec(f)[2]
+
+
+@native_spec("is_boxed_str")
+def _n_is_boxed_str(ne, a):
+    return isinstance(a, str)
+
+
+@native_spec("is_boxed_bytes")
+def _n_is_boxed_bytes(ne, a):
+    return isinstance(a, bytes)
+
+
+@native_spec("dyn_is_def_template")
+def _n_dyn_is_def_template(ne, a):
+    from mako.template import DefTemplate
+    return isinstance(a, DefTemplate)
